@@ -9,7 +9,7 @@ from fractions import Fraction
 
 import numpy as np
 
-from .. import coqrun
+from .. import coqrun, histseq, histshrink
 from ..core import Corr
 from ..coqrun import cz, cnat, clist, cbool
 
@@ -273,11 +273,24 @@ def impl_variants(matrix, kind, slog, out, limit=5.0):
     return None
 
 
+_HIST = []      # ids of the jobs this (worker) process has run so far, in order: the call history of a failing case
+
+
 def _work(job):
-    matrix, kind, slog = job
+    idx, matrix, kind, slog = job
+    _HIST.append(idx)
     out = impl_run(matrix, kind, slog)
     bad = oracle(matrix, out) or impl_variants(matrix, kind, slog, out)
-    return out, bad
+    return out, bad, (list(_HIST) if bad else None)
+
+
+def run_history(steps):
+    """histseq interface: the steps (case dicts) one after the other in this interpreter; complaints about the LAST one"""
+    bad = None
+    for c in steps:
+        out = impl_run(c["matrix"], c["kind"], c["scale_log2"])
+        bad = oracle(c["matrix"], out) or impl_variants(c["matrix"], c["kind"], c["scale_log2"], out)
+    return [bad] if bad else []
 
 
 # ----------------------------------------------------------------------------------------------
@@ -621,10 +634,12 @@ def gen_enum(ctx):
 
 
 def _work_enum(job):
-    _stream, n, m, b, k = job
+    idx, _stream, n, m, b, k = job
+    _HIST.append(idx)
     M = enum_matrix(n, m, b, k)
     out = impl_run(M)
-    return out, oracle(M, out) or impl_variants(M, "int", 0, out)
+    bad = oracle(M, out) or impl_variants(M, "int", 0, out)
+    return out, bad, (list(_HIST) if bad else None)
 
 
 REFUSALS = [
@@ -753,6 +768,7 @@ def ccell(x):
 # ----------------------------------------------------------------------------------------------
 
 def _pool():
+    _HIST.clear()           # the workers are forked from this process: each starts with an empty call history
     return multiprocessing.get_context("fork").Pool(NPROC)
 
 
@@ -791,16 +807,16 @@ def correspond(ctx):
     jobs = gen_jobs(ctx)
     enum = gen_enum(ctx)
     with _pool() as pool:
-        res = _run_jobs(pool, _work, [(M, kind, slog) for _s, M, kind, slog in jobs], 16)
+        res = _run_jobs(pool, _work, [(i, M, kind, slog) for i, (_s, M, kind, slog) in enumerate(jobs)], 16)
     with _pool() as pool:
-        eres = _run_jobs(pool, _work_enum, enum, 256)
+        eres = _run_jobs(pool, _work_enum, [(i,) + e for i, e in enumerate(enum)], 256)
     if len(res) < len(jobs) or len(eres) < len(enum):
         ctx.log(f"stopped early after many oracle failures: {len(res)}/{len(jobs)} sampled, {len(eres)}/{len(enum)} enumerated")
         jobs, enum = jobs[:len(res)], enum[:len(eres)]
     ctx.log(f"{len(jobs)} sampled + {len(enum)} enumerated matrices through the instrumented implementation")
 
     full_terms, full_meta = [], []
-    for (stream, M, kind, slog), (out, bad) in zip(jobs, res):
+    for (stream, M, kind, slog), (out, bad, hist) in zip(jobs, res):
         corr.count(stream)
         corr.hit("impl_" + (out[0] if out[0] == "Ok" else "Err_" + out[1]))
         if out[0] == "Ok":
@@ -809,7 +825,7 @@ def correspond(ctx):
                 corr.nontriv([M, kind, slog])
         if bad:
             corr.failures.append({"stream": "oracle", "from": stream, "case": _case(M, kind, slog), "what": bad,
-                                  "observed": list(out[:6])})
+                                  "observed": list(out[:6]), "_hist": ("jobs", hist)})
         full_terms.append(full_term(M, out))
         full_meta.append((stream, M, kind, slog, out))
     for k in (0, 2, len(CORPUS) + 6):
@@ -819,7 +835,7 @@ def correspond(ctx):
         corr.sample({"input": _case(M, kind, slog), "output": list(out[:6])})
 
     enum_terms = []
-    for (stream, n, m, b, k), (out, bad) in zip(enum, eres):
+    for (stream, n, m, b, k), (out, bad, hist) in zip(enum, eres):
         corr.count(stream)
         M = None
         if out[0] == "Ok" and out[4] > 2:
@@ -827,13 +843,13 @@ def correspond(ctx):
         if bad:
             M = enum_matrix(n, m, b, k)
             corr.failures.append({"stream": "oracle", "from": stream, "case": _case(M, "int", 0), "what": bad,
-                                  "observed": list(out[:6])})
+                                  "observed": list(out[:6]), "_hist": ("enum", hist)})
         cnt, dg = (out[4], out[5]) if out[0] == "Ok" else (-1, -1)
         enum_terms.append("(%s, %s, %s, %s, %s, %s)" % (cnat(n), cnat(m), cz(b), cz(k), cz(cnt), cz(dg)))
 
     # exact state traces on a sample (guards the digest machinery; every field compared in Coq)
     trace_terms, trace_meta = [], []
-    tr_src = [j for j, (o, _b) in zip(jobs, res)
+    tr_src = [j for j, (o, _b, _h) in zip(jobs, res)
               if j[0] in ("corpus", "rand8") and j[2] == "int" and len(j[1]) and len(j[1][0]) and o[0] == "Ok"]
     for stream, M, kind, slog in tr_src[: (600 if ctx.thorough else 150)]:
         out = impl_run(M, kind, slog, want_trace=True)
@@ -878,6 +894,19 @@ def correspond(ctx):
         return (len(M) * (len(M[0]) if M else 0), sum(abs(x) for r in M for x in r)) if isinstance(M, list) else (0, 0)
     mats = [f for f in corr.failures if f["stream"] == "oracle"]
     mats.sort(key=_size)
+    # a failure may depend on the calls the worker process made before it: record the shortest history that reproduces it in
+    # a fresh interpreter (so that the replay file is self-contained) and put reproducing failures first
+    def steps_of(f):
+        src, hist = f.get("_hist") or (None, None)
+        if not hist:
+            return None
+        hist = hist[-2048:]          # the part of the worker's call history that is searched
+        if src == "jobs":
+            return [_case(jobs[i][1], jobs[i][2], jobs[i][3]) for i in hist]
+        return [_case(enum_matrix(*enum[i][1:]), "int", 0) for i in hist]
+    mats = histshrink.order_and_attach("c14", mats, steps_of, log=ctx.log)
+    for f in mats:
+        f.pop("_hist", None)
     corr.failures = mats + [f for f in corr.failures if f["stream"] != "oracle"]
     ctx.log(f"evaluating the model: {len(full_terms)} full, {len(enum_terms)} enumerated, {len(trace_terms)} exact-trace, {len(ref_terms)} refusal cases")
     # large matrices are expensive in vm_compute: shard by estimated size
@@ -944,12 +973,16 @@ def search(ctx, corr, reasons):
     if not found:
         jobs = [(rand_matrix(ctx.rng, 1, 7), "int", 0) for _ in range(4000)] + [j[1:] for j in dtype_jobs(ctx)]
         with _pool() as pool:
-            res = _run_jobs(pool, _work, jobs, 32, max_fail=10)
+            res = _run_jobs(pool, _work, [(i,) + j for i, j in enumerate(jobs)], 32, max_fail=10)
         jobs = jobs[:len(res)]
-        for (M, kind, slog), (out, bad) in zip(jobs, res):
+        for (M, kind, slog), (out, bad, hist) in zip(jobs, res):
             if bad:
-                found.append({"stream": "search", "case": _case(M, kind, slog), "what": bad, "observed": list(out[:6])})
+                found.append({"stream": "search", "case": _case(M, kind, slog), "what": bad, "observed": list(out[:6]), "_hist": hist})
         found.sort(key=lambda f: (len(f["case"]["matrix"]) * len(f["case"]["matrix"][0]) if f["case"]["matrix"] else 0))
+        found = histshrink.order_and_attach("c14", found, lambda f: [_case(*jobs[i]) for i in f["_hist"][-2048:]] if f.get("_hist") else None,
+                                            log=ctx.log)
+        for f in found:
+            f.pop("_hist", None)
     return found[:5]
 
 
@@ -959,6 +992,12 @@ def replay(ctx, rp):
         obj = eval(c["matrix"], {"inf": float("inf"), "nan": float("nan")})
         out = impl_refuse(mk_refuse(obj, c.get("dtype"), c.get("layout")))
         return {"input": c, "implementation": list(out), "fails": out != ("Err", "ValueError")}
+    if c.get("history"):
+        # the failure needs the earlier calls: all of them, then the case, in one fresh interpreter
+        last = {k: v for k, v in c.items() if k != "history"}
+        got = histseq.fresh_run("c14", list(c["history"]) + [last])
+        return {"input": c, "oracle": got, "fails": bool(got),
+                "note": "history replay: earlier calls re-run in a fresh interpreter before the case"}
     out = impl_run(c["matrix"], c["kind"], c["scale_log2"])
     bad = oracle(c["matrix"], out) or impl_variants(c["matrix"], c["kind"], c["scale_log2"], out)
     return {"input": c, "implementation": list(out[:6]), "oracle": bad, "fails": bool(bad)}
